@@ -69,8 +69,10 @@ impl TryFrom<usize> for DepthMin {
 pub struct DepthMax(pub usize);
 
 impl DepthMax {
-    pub(crate) fn max_at_pivot(self, pivot: usize) -> usize {
-        self.0.saturating_sub(pivot)
+    /// Gets the maximum depth relative to a pivot, or `None` if the maximum lies above the pivot
+    /// (in which case no file at nor beneath the pivot is within the maximum depth).
+    pub(crate) fn max_at_pivot(self, pivot: usize) -> Option<usize> {
+        self.0.checked_sub(pivot)
     }
 }
 
@@ -126,10 +128,13 @@ impl DepthMinMax {
             .map_or_else(|| Max(DepthMax(max)), MinMax)
     }
 
-    pub(crate) fn min_max_at_pivot(self, pivot: usize) -> (usize, usize) {
+    /// Gets the minimum and maximum depths relative to a pivot. The maximum is `None` if it lies
+    /// above the pivot (in which case no file at nor beneath the pivot is within the maximum
+    /// depth).
+    pub(crate) fn min_max_at_pivot(self, pivot: usize) -> (usize, Option<usize>) {
         (
             self.min.get().saturating_sub(pivot),
-            self.max().get().saturating_sub(pivot),
+            self.max().get().checked_sub(pivot),
         )
     }
 
